@@ -87,7 +87,23 @@ type checkOutcome struct {
 	wall       float64
 }
 
-func runProperty(w *World, prop string, quickSec, fullSec int) *checkOutcome {
+// matchExpected: exact name, or wildcard "fn/kind#*" covering every obligation of that safety kind in fn.
+func matchExpected(expected map[string]bool, o *Oblig) bool {
+	if expected[o.Name] {
+		return true
+	}
+	if i := strings.LastIndex(o.Name, "@b"); i >= 0 && expected[o.Name[:i]+"@*"] {
+		return true
+	}
+	if isSafetyKind(o.Kind) {
+		if expected[o.Fn+"/"+o.Kind+"#*"] {
+			return true
+		}
+	}
+	return false
+}
+
+func runProperty(w *World, prop string, quickSec, fullSec int, expected map[string]bool) *checkOutcome {
 	out := &checkOutcome{byName: map[string]*Oblig{}, fnErr: map[string]string{}}
 	var keys []string
 	for k, ct := range w.contracts {
@@ -123,7 +139,12 @@ func runProperty(w *World, prop string, quickSec, fullSec int) *checkOutcome {
 			out.fnErr[dr.Key] = dr.Err
 		}
 	}
-	solveAll(out.results, quickSec, fullSec, runtime.NumCPU())
+	solveAllF(out.results, func(o *Oblig) (int, int) {
+		if expected == nil || matchExpected(expected, o) {
+			return quickSec, fullSec
+		}
+		return 2, 0 // unclaimed: one short attempt, for the evidence only
+	}, runtime.NumCPU())
 	for _, r := range out.results {
 		for _, o := range r.Obls {
 			out.byName[o.Name] = o
@@ -171,7 +192,7 @@ func cmdCheck(args []string) int {
 		writeEvidence(prop, tier, seed, nil, nil, expected, order, nil, nil, 1, time.Since(start).Seconds(), nil)
 		return 1
 	}
-	out := runProperty(w, prop, quickSec, fullSec)
+	out := runProperty(w, prop, quickSec, fullSec, expected)
 
 	// known findings first
 	kfByObl := map[string]KnownFinding{}
@@ -205,6 +226,34 @@ func cmdCheck(args []string) int {
 	}
 
 	discharged := 0
+	// expand wildcards into the obligations generated now
+	var expanded []string
+	for _, name := range order {
+		if strings.HasSuffix(name, "#*") || strings.HasSuffix(name, "@*") {
+			pre := strings.TrimSuffix(name, "*")
+			if strings.HasSuffix(name, "@*") {
+				pre += "b"
+			}
+			n := 0
+			for _, r := range out.results {
+				for _, o := range r.Obls {
+					if strings.HasPrefix(o.Name, pre) && (isSafetyKind(o.Kind) || strings.HasSuffix(name, "@*")) {
+						expanded = append(expanded, o.Name)
+						n++
+					}
+				}
+			}
+			if n == 0 {
+				fn := name[:strings.Index(name, "/")]
+				if _, bad := out.fnErr[fn]; bad || strings.HasSuffix(name, "@*") {
+					expanded = append(expanded, name)
+				}
+			}
+			continue
+		}
+		expanded = append(expanded, name)
+	}
+	order = expanded
 	for _, name := range order {
 		if handledKF[name] {
 			continue
@@ -283,10 +332,15 @@ func cmdClaim(args []string) int {
 		fmt.Fprintln(os.Stderr, err)
 		return 2
 	}
-	out := runProperty(w, prop, 3, 20)
+	out := runProperty(w, prop, 3, 20, nil)
 	var names []string
 	slow := 0
+	wild := map[string]bool{}
 	for _, r := range out.results {
+		if loopBroken(r) {
+			fmt.Printf("  NOT CLAIMING %s: a loop invariant is not inductive (init/preserve not proved)\n", r.Key)
+			continue
+		}
 		// safety kinds are claimed per function only when all of that kind are proved
 		kindAll := map[string]bool{}
 		for _, o := range r.Obls {
@@ -304,12 +358,27 @@ func cmdClaim(args []string) int {
 				fmt.Printf("  not claimed (%s): %s\n", statusOf(o), o.Name)
 				continue
 			}
-			if isSafetyKind(o.Kind) && !kindAll[o.Kind] {
+			if isSafetyKind(o.Kind) {
+				if kindAll[o.Kind] {
+					wc := o.Fn + "/" + o.Kind + "#*"
+					if !wild[wc] {
+						wild[wc] = true
+						names = append(names, wc)
+					}
+				}
 				continue
 			}
 			if o.Res.Ms > 6000 {
 				slow++
 				fmt.Printf("  not claimed (slow %dms): %s\n", o.Res.Ms, o.Name)
+				continue
+			}
+			if i := strings.LastIndex(o.Name, "@b"); i >= 0 {
+				wc := o.Name[:i] + "@*"
+				if !wild[wc] {
+					wild[wc] = true
+					names = append(names, wc)
+				}
 				continue
 			}
 			names = append(names, o.Name)
@@ -381,14 +450,14 @@ func writeEvidence(prop, tier string, seed int, w *World, out *checkOutcome, exp
 		for _, r := range out.results {
 			fr := fnRec{Func: r.Key, Mode: r.Mode, Error: firstLines(r.Err, 3), Unmodelled: r.Unmodelled, Notes: r.Notes}
 			for _, o := range r.Obls {
-				rec := oblRec{Name: o.Name, Kind: o.Kind, Status: statusOf(o), Pos: o.Pos, Claimed: expected[o.Name]}
+				rec := oblRec{Name: o.Name, Kind: o.Kind, Status: statusOf(o), Pos: o.Pos, Claimed: matchExpected(expected, o)}
 				if o.Res != nil {
 					rec.Solver, rec.Ms = o.Res.Solver, o.Res.Ms
 					solverMs[o.Res.Solver] += o.Res.Ms
 					solverN[o.Res.Solver]++
 				}
 				fr.Obligations = append(fr.Obligations, rec)
-				if expected[o.Name] {
+				if matchExpected(expected, o) {
 					claimed++
 					if o.Res != nil && o.Res.Proved(o) {
 						discharged++
@@ -463,3 +532,17 @@ func writeEvidence(prop, tier string, seed int, w *World, out *checkOutcome, exp
 }
 
 func kfDischarged(known []string) int { return len(known) }
+
+// loopBroken: some loop-init / loop-preserve / decreases obligation of the function is not proved,
+// so nothing that assumes the invariant may be claimed.
+func loopBroken(r *FuncResult) bool {
+	for _, o := range r.Obls {
+		switch o.Kind {
+		case "loop-init", "loop-preserve":
+			if o.Res == nil || !o.Res.Proved(o) {
+				return true
+			}
+		}
+	}
+	return false
+}
